@@ -111,6 +111,14 @@ CHECKS = {
          "0..130 full cross product; IntegerGMP/IntegerCustom/IntegerNative on all ordered pairs of a 55/95-value alphabet x 58 operations (value, type, exception "
          "class); byte-identical transcripts of ~1000-1700 library operations from three subprocesses (GMP, custom, native). No reference needed: pairwise equality.",
          "Trusted: nothing but equality; needs a CPU with AES-NI and CLMUL (checked at run time, otherwise the part is reported as not covered).", "DESIGN.md 3/C16"),
+ "C20": ("exploration",
+         "bounded exhaustive enumeration of (k,n), secrets and coefficient tapes with the library's random source replaced by a tape; every ordered k-subset recombined; field laws on all triples and all basis monomial pairs",
+         "All 15 (k,n) with 2<=k<=n<=6, both ssss modes, 14 boundary secrets x coefficient tapes from the same alphabet: split() must return exactly the "
+         "reference polynomial's shares for the tape coefficients and draw exactly 16(k-1) bytes (tripwire on every other entropy source), so the secrecy "
+         "statement becomes a theorem about the reference polynomial (additionally witnessed by solving for tapes that map other secrets onto the same "
+         "k-1 shares). Every k-subset in every order (P(6,k) orders), supersets, (k-1)-subsets, 216 k duplicate-index lists; multiplication on all 128x128 "
+         "basis monomial pairs pins the reduction polynomial, associativity/distributivity on all 14^3 triples, all inverses.",
+         "Trusted: mc/ref/gf128.py. Secrets and coefficients outside the element alphabet are not covered.", "DESIGN.md 3/C20"),
 }
 NOT_YET = "check not built yet (work in progress in this session; see DESIGN.md section 3 for the planned bounded-exhaustive check)"
 man = {
